@@ -27,6 +27,7 @@ import (
 	"context"
 	"fmt"
 	"os"
+	"os/exec"
 	"path/filepath"
 	"sort"
 	"strings"
@@ -87,6 +88,13 @@ func c05Round(r *Runner, st *Step, ctx context.Context) {
 	// n deployments of the same workflow in the same core, one after the other: the task manager's class
 	// registry (and whatever a deployment left in it) is what the next deployment works with
 	for k := 1; k <= n; k++ {
+		// the repository changes between two deployments: Vars["<k>|<path>"] = new content of <path> (committed)
+		// before deployment k
+		if err := c05RewriteRepo(r, st, k); err != nil {
+			r.Emit("C05Round", "k", k, "complete", false, "alive", c05ChildAlive(r), "panic", "", "error", "repo: "+err.Error())
+			r.setTainted()
+			break
+		}
 		complete, alive, what := c05OneDeployment(r, cl, cctx, st, k, timeout)
 		r.Emit("C05Round", "k", k, "complete", complete, "alive", alive, "panic", what, "error", "")
 		if !complete || !alive {
@@ -100,6 +108,36 @@ func c05Round(r *Runner, st *Step, ctx context.Context) {
 	}
 	ccancel()
 	conn.Close()
+}
+
+// c05RewriteRepo rewrites and commits the workflow repository files scheduled for deployment k.
+func c05RewriteRepo(r *Runner, st *Step, k int) error {
+	prefix := fmt.Sprintf("%d|", k)
+	dir := filepath.Join(r.Work, "wfrepo", "ControlWorkflows")
+	changed := []string{}
+	for key, content := range st.Vars {
+		if !strings.HasPrefix(key, prefix) {
+			continue
+		}
+		rel := strings.TrimPrefix(key, prefix)
+		if err := os.WriteFile(filepath.Join(dir, rel), []byte(content), 0o644); err != nil {
+			return err
+		}
+		changed = append(changed, rel)
+	}
+	if len(changed) == 0 {
+		return nil
+	}
+	sort.Strings(changed)
+	for _, a := range [][]string{{"add", "-A"}, {"-c", "user.email=v@v", "-c", "user.name=v", "commit", "-q", "-m", "template edited"}} {
+		c := exec.Command("git", a...)
+		c.Dir = dir
+		if out, err := c.CombinedOutput(); err != nil {
+			return fmt.Errorf("git %v: %v: %s", a, err, out)
+		}
+	}
+	r.Emit("C05Repo", "k", k, "files", changed)
+	return nil
 }
 
 // c05OneDeployment asks for one more environment and waits for the answers to the next OFFERS event.
